@@ -11,7 +11,7 @@
  * the workers are created by thread_pool_create.  Prints
  *   rc=<first non-zero API result or 0> at=<call that failed or -> dl=<1 if the scheduler found no runnable
  *   thread while one was still alive> steps=<n> sz=<output size> out=<fnv1a of output bytes> ino=<fnv1a over the
- *   inodes' sizes and block lists> mtx=<1 if a mutex was held at a scheduling point>
+ *   inodes' sizes and block lists> mtx=<1 if a mutex was held at a scheduling point> cerr=<SQFS_ERROR_COMPRESSOR>
  * When linked against a library built with threadpool_serial.c (no scheduler involvement: thread 0 never blocks)
  * the same line gives the reference result.
  */
@@ -325,8 +325,8 @@ static void run_line(char *line)
 		if (++guard > 50000000)
 			break;
 	}
-	printf("rc=%d at=%s dl=%d steps=%lu sz=%zu out=%016llx ino=%016llx mtx=%d\n", g_rc, g_at, dl, vs_steps() - steps0,
-	       out_size, (unsigned long long)h_out, (unsigned long long)h_ino, mtx);
+	printf("rc=%d at=%s dl=%d steps=%lu sz=%zu out=%016llx ino=%016llx mtx=%d cerr=%d\n", g_rc, g_at, dl, vs_steps() - steps0,
+	       out_size, (unsigned long long)h_out, (unsigned long long)h_ino, mtx, (int)SQFS_ERROR_COMPRESSOR);
 	vs_kill_all();
 }
 
